@@ -112,15 +112,17 @@ Proof. vm_compute. reflexivity. Qed.
    [wf_finished l b]: l = TagRPC, Begin, plain events, End b - exactly one
    Begin, before every other event; exactly one End, last; b = (End.Error == nil). ---- *)
 
-(* client, unary (invoke + CallUnaryMethod), every exit: well-formed; End.Error
-   is nil iff Invoke succeeded - EXCEPT when the error is io.EOF.
-   Full statement  forall x, cu_wf x = true -> wf_finished (cu_events x) (cu_success x)
-   is false of the code: C20_stats_end_eof_refuted. *)
-Theorem C20_stats_client_unary_partial : forall x : cu_exit,
-  wf_finished (cu_events x) (cu_end_flag x) /\
-  (cu_wf x = true -> cu_eof x = false -> cu_end_flag x = cu_success x).
-Proof. intro x. split; [apply cu_wf_finished|apply cu_end_iff_success]. Qed.
-Print Assumptions C20_stats_client_unary_partial.
+(* client, unary (invoke + CallUnaryMethod), EVERY exit - marshal error, failed
+   open / fail-fast, write failure, cancel, deadline, connection lost, error
+   status, malformed reply, undecodable reply, ok; the error may be io.EOF -:
+   one Begin first, one End last, End.Error nil iff Invoke returned nil.
+   ([cu_wf]: the exits that return an error do return one.) This is the full
+   statement since fix 9827a73 (before it the io.EOF exits ended with a nil
+   End.Error: former finding client-end-eof-nil). *)
+Theorem C20_stats_client_unary : forall x : cu_exit,
+  cu_wf x = true -> wf_finished (cu_events x) (cu_success x).
+Proof. exact cu_wf_finished. Qed.
+Print Assumptions C20_stats_client_unary.
 
 (* client, stream: a failed open (refused on a failed connection - fix D-20a -
    or failing opening write) is a finished, failed RPC *)
@@ -156,17 +158,15 @@ Theorem C20_stats_server_stream_partial : forall (ops : list ss_op) (r : res),
 Proof. intros ops r. split; [apply ss_wf_finished|apply res_flag_ok]. Qed.
 Print Assumptions C20_stats_server_stream_partial.
 
-(* the exception is real (finding server-end-eof-nil / client-end-eof-nil): a handler
-   returning io.EOF, and an Invoke failing with io.EOF, end with End.Error = nil *)
+(* the exception is real on the server (finding server-end-eof-nil): a handler
+   returning io.EOF ends with End.Error = nil although it failed *)
 Theorem C20_stats_end_eof_refuted :
   (exists d r, res_ok r = false /\ wf_finished (su_events (SU_run d r)) true) /\
-  (exists ops r, res_ok r = false /\ wf_finished (ss_events (SS_run ops r)) true) /\
-  (exists x, cu_wf x = true /\ cu_success x = false /\ wf_finished (cu_events x) true).
+  (exists ops r, res_ok r = false /\ wf_finished (ss_events (SS_run ops r)) true).
 Proof.
-  split; [|split].
+  split.
   - exists DecOk, REof. split; [reflexivity|apply (su_wf_finished DecOk REof)].
   - exists [], REof. split; [reflexivity|apply (ss_wf_finished [] REof)].
-  - exists (CU_early REof). repeat split. apply (cu_wf_finished (CU_early REof)).
 Qed.
 Print Assumptions C20_stats_end_eof_refuted.
 
@@ -181,6 +181,9 @@ Theorem C20_conn : forall x : serve_exit, serve_events x = [TagConn; ConnBegin t
 Proof. exact serve_conn. Qed.
 Print Assumptions C20_conn.
 
+Example C20_ex_client_unary_eof :
+  cu_wf (CU_early REof) = true /\ cu_events (CU_early REof) = [TagRPC; Begin; OutHeader; OutPayload; End false].
+Proof. vm_compute. split; reflexivity. Qed.
 Example C20_ex_client_stream :
   cs_events CSO_ok [CSendOk; PMsg; CRecvOk; CCloseSend; PTrailer true; CCloseSend; PFail] =
   [TagRPC; Begin; OutHeader; OutPayload; InHeader; InPayload; OutTrailer; End true; OutTrailer].
